@@ -40,7 +40,9 @@ func (c13) Components() map[string]string {
 }
 
 var c13Types = []string{"ca", "signingAuthority", "tsa", "CA", "tsa ", "x", ""}
-var c13Names = []string{"s1", "s2", "with.dot", "a-b_c", ".", "..", "...", "", "s1/", "s1/../s2", "../ca/s1", "s 1", "s1\x00", "..s", "no-such-store"}
+var c13Names = []string{"s1", "s2", "with.dot", "a-b_c", ".", "..", "...", "", "s1/", "s1/../s2", "../ca/s1", "s 1", "s1\x00", "..s", "no-such-store",
+	// names that a trimming, case-folding or unescaping lookup would turn into an existing store
+	" s1", "s1 ", "s1\n", "\ts2", "S1", "S2", "With.Dot", "%73%31", "s1%00", "s1.", "A-B_C"}
 var c13Files = []string{"a.pem", "b.crt", "c.der", "zz.pem", ".hidden.pem", "UPPER.PEM", "no-extension", "with space.crt"}
 
 var plainName = regexp.MustCompile(`^[a-zA-Z0-9_.-]+$`)
@@ -53,7 +55,7 @@ func (c13) Gen(r *rand.Rand, tier string, idx int) *core.Plan {
 	for i := 0; i < n; i++ {
 		switch x := r.IntN(20); {
 		case x < 7:
-			p.Ops = append(p.Ops, core.Op{Kind: "writecert", S: []string{validType(), storeName(), c13Files[r.IntN(len(c13Files))]}, I: []int64{int64(r.IntN(7)), int64(r.IntN(6))}})
+			p.Ops = append(p.Ops, core.Op{Kind: "writecert", S: []string{validType(), storeName(), c13Files[r.IntN(len(c13Files))]}, I: []int64{int64(r.IntN(10)), int64(r.IntN(6))}})
 		case x < 9:
 			p.Ops = append(p.Ops, core.Op{Kind: "writebad", S: []string{validType(), storeName(), c13Files[r.IntN(len(c13Files))]}, I: []int64{int64(r.IntN(6)), int64(r.IntN(1001))}})
 		case x < 10:
@@ -169,7 +171,12 @@ func (l c13) Exec(env *core.Env) *core.Result {
 	inter := world.NewCert(ca, world.CertOpts{CN: "inter", IsCA: true, PathLen: -1})
 	ssLeaf := world.NewCert(nil, world.CertOpts{CN: "self-signed-leaf", EKU: []x509.ExtKeyUsage{x509.ExtKeyUsageCodeSigning}})
 	leaf := world.NewCert(ca, world.CertOpts{CN: "issued-leaf", EKU: []x509.ExtKeyUsage{x509.ExtKeyUsageCodeSigning}})
-	material := [][]*x509.Certificate{{ca.Cert}, {inter.Cert}, {ssLeaf.Cert}, {leaf.Cert}, {ca.Cert, ca2.Cert}, {ca.Cert, leaf.Cert}, {ca2.Cert}}
+	// read as self-signed (issuer name = subject name, authority key id = subject key id), signed with another key:
+	// the leaf is neither CA nor self-signed; the CA is no self-signed root for a tsa store
+	look := world.NewCert(nil, world.CertOpts{CN: "lookalike-leaf", EKU: []x509.ExtKeyUsage{x509.ExtKeyUsageCodeSigning}, Lookalike: true})
+	lookCA := world.NewCert(nil, world.CertOpts{CN: "lookalike-ca", IsCA: true, PathLen: -1, Lookalike: true})
+	material := [][]*x509.Certificate{{ca.Cert}, {inter.Cert}, {ssLeaf.Cert}, {leaf.Cert}, {ca.Cert, ca2.Cert}, {ca.Cert, leaf.Cert}, {ca2.Cert},
+		{look.Cert}, {lookCA.Cert}, {ca.Cert, look.Cert}}
 	// an unrelated directory with a valid certificate, the target of symlinked stores
 	elsewhere := filepath.Join(env.Dir, "elsewhere")
 	os.MkdirAll(elsewhere, 0755)
@@ -287,9 +294,9 @@ func (l c13) Exec(env *core.Env) *core.Result {
 					res.Violate(class, fmt.Sprintf("%s (%s)", key, why), "GetCertificates returned %d certificates [%s] although: %s", len(got), rawSet(got), why)
 				case why == "" && err != nil:
 					// "succeeds only for / only if": a loader that refuses more than the statement requires is
-				// within it (the suite's own tests pin the ordinary cases); counted
-				res.Probe("well_formed_store_refused")
-				_ = want
+					// within it (the suite's own tests pin the ordinary cases); counted
+					res.Probe("well_formed_store_refused")
+					_ = want
 				case why == "" && rawSet(got) != rawSet(want):
 					res.Violate("C13/wrong-certificate-set", key, "returned [%s], the store's files hold [%s]", rawSet(got), rawSet(want))
 				}
